@@ -272,7 +272,6 @@ import functools
 
 
 @functools.lru_cache(maxsize=None)
-@functools.lru_cache(maxsize=None)
 def x25519_shaped_output(shape, i):
     """a u-coordinate in a prime-order subgroup (so that it IS a possible X25519 output) whose 32 bytes have a shape a
     sloppy all-zero test or a truncating encoder trips over; see spec/MC_Kem.tla ShapedDh"""
@@ -294,6 +293,7 @@ def x25519_shaped_output(shape, i):
     raise EvalError("no X25519 output of shape " + shape)
 
 
+@functools.lru_cache(maxsize=None)
 def make_xy(curve, recipe, i):
     """X || Y (fixed width) for the named recipe; see spec/MC_Codec.tla XyRecipes"""
     c = prims.CURVES[curve]
